@@ -13,16 +13,11 @@ import Mathlib.Analysis.SpecialFunctions.Complex.LogDeriv
 import Mathlib.Analysis.SpecialFunctions.Trigonometric.InverseDeriv
 import Mathlib.Analysis.SpecialFunctions.Sqrt
 import Gama.Gen.Linearization
+import Gama.Lemmas.RealScalar
 namespace Gama
 
-noncomputable instance instScalarReal : Scalar ℝ where
-  sqrt := Real.sqrt
-  ofNat n := (n : ℝ)
-  ofSci m s e := if s then (m : ℝ) / 10 ^ e else (m : ℝ) * 10 ^ e
-  decLt _ _ := Classical.propDecidable _
-  decLe _ _ := Classical.propDecidable _
-  beq a b := @decide (a = b) (Classical.propDecidable _)
-  abs x := |x|
+/- `Scalar ℝ` (`Gama.instScalarReal`) and the priority of its parent projections are declared once,
+   in `Lemmas/RealScalar.lean`, shared with the C09 and C17/C18 lemma files. -/
 
 noncomputable instance instTrigScalarReal : TrigScalar ℝ where
   sin := Real.sin
@@ -30,12 +25,6 @@ noncomputable instance instTrigScalarReal : TrigScalar ℝ where
   atan2 y x := Complex.arg ⟨x, y⟩
   acos := Real.arccos
   pi := Real.pi
-
-/- `Scalar ℝ` brings a second path to `Add ℝ`, `LT ℝ`, …; keep Mathlib's own instances
-   preferred in statements and proofs (the generated definitions use the `Scalar` path, which
-   unfolds to the same operations). -/
-attribute [instance 10] Scalar.toAdd Scalar.toSub Scalar.toMul Scalar.toDiv Scalar.toNeg
-  Scalar.toZero Scalar.toOne Scalar.toLT Scalar.toLE
 
 namespace Lin
 open Real
